@@ -55,6 +55,7 @@ def gen_case(rng, i, tier):
                            kinds=("random", "grid", "grid", "chain", "chain_dyadic"))
     n = len(case["trace"])
     case["ops"] = gen.gen_history(rng, n, case["cfg"]["width"], allow_cwd=False, allow_restart=False, max_ops=4, unique=False)
+    gen.add_pre_trace(rng, case)   # the matcher object may have matched another trace before / matches one afterwards
     return case
 
 
@@ -99,6 +100,10 @@ def check_case(ctx, case):
         nonlocal prev
         if exc is not None:
             ctx.count("op_raised")
+            prev = None
+            return
+        if op["op"] == "pre":
+            ctx.count("histories_on_a_reused_matcher")
             prev = None
             return
         k = op.get("k", len(mt.path))
